@@ -387,7 +387,8 @@ contract('info.SectionType.addsection', params={'name': 'Opt[str]', 'sectinfo': 
                        carries='C10', label='section-name-or-attribute-name-already-used-in-this-container')])
 
 # ---- the schema object: type table, derived types, components (C10, C11) ---------------------------------------------
-model('info.SchemaType', fields={'_components': 'Map[str, str]', 'url': 'Opt[str]'})
+shared_dict('components', 'str', 'str')      # a real dict object: sharing it between two schemas must be visible
+model('info.SchemaType', fields={'_components': 'Ref[dict:components]', 'url': 'Opt[str]'})
 contract('info.SchemaType.__init__',
          params={'keytype': 'Fun[kt]', 'valuetype': 'Opt[Fun[dt]]', 'datatype': 'Opt[Fun[sdt]]', 'handler': 'Opt[str]',
                  'url': 'Opt[str]', 'registry': 'Ref[Registry]'},
@@ -396,7 +397,7 @@ contract('info.SchemaType.__init__',
                          'self.datatype == datatype and self.registry == registry and self.handler == handler and '
                          'self.url == url', carries='C10', label='stores-the-declaration'),
                   Clause('len(self._children) == 0 and len(self._attrmap) == 0 and len(self._keymap) == 0 and '
-                         'len(keys(self._types)) == 0 and fresh(self._types) and len(self._components) == 0',
+                         'len(keys(self._types)) == 0 and fresh(self._types) and len(keys(self._components)) == 0 and fresh(self._components)',
                          carries='C10,C13', label='own-empty-type-table-no-children-no-components')])
 contract('info.SchemaType.addtype', params={'typeinfo': 'Ref[TypeLike]'},
          requires=[Clause('typeinfo.name is not None', label='types-have-names')],
@@ -424,12 +425,12 @@ contract('info.SchemaType.createSectionType',
          raises=[Raise('ZConfig.SchemaError', when='name in self._types.items',
                        then=[Clause('self._types.items == old(self._types.items)')], carries='C10',
                        label='type-name-cannot-be-redefined')])
-contract('info.SchemaType.addComponent', params={'name': 'str'}, modifies=['self._components'],
-         ensures=[Clause('name not in old(self._components) and self._components == updated(old(self._components), name, name)',
+contract('info.SchemaType.addComponent', params={'name': 'str'}, modifies=['self._components.items'],
+         ensures=[Clause('name not in old(self._components.items) and self._components.items == updated(old(self._components.items), name, name)',
                          carries='C11', label='component-recorded-once')],
-         raises=[Raise('ZConfig.SchemaError', when='name in self._components', carries='C11', label='component-already-loaded')])
+         raises=[Raise('ZConfig.SchemaError', when='name in self._components.items', carries='C11', label='component-already-loaded')])
 contract('info.SchemaType.hasComponent', params={'name': 'str'}, returns='bool',
-         ensures=[Clause('result == (name in self._components)', carries='C11', label='import-once-guard')])
+         ensures=[Clause('result == (name in self._components.items)', carries='C11', label='import-once-guard')])
 
 RAWD_ENTRY = "(alt(old(self._default), 'kmap') if is_alt(old(self._rawdefaults), 'none') else alt(old(self._rawdefaults), 'kmap'))"
 assumed('info.BaseKeyInfo.computedefault', params={'keytype': 'Fun[kt]'},
@@ -485,5 +486,5 @@ contract('info.createDerivedSchema', params={'base': 'Ref[info.SchemaType]'}, re
                          'result.registry == base.registry', carries='C12', label='same-settings'),
                   Clause('result._children == base._children and result._attrmap == base._attrmap and '
                          'result._keymap == base._keymap and result._types.items == base._types.items and '
-                         'result._components == base._components', carries='C12,C13',
+                         'result._components.items == base._components.items and fresh(result._components)', carries='C12,C13',
                          label='same-children-types-and-components-in-containers-of-its-own')])
